@@ -62,8 +62,8 @@ def main():
     for root in args:
         for d in sorted(glob.glob(os.path.join(root, "*"))):
             if os.path.exists(os.path.join(d, "patch.diff")):
-                tag = os.path.basename(os.path.dirname(os.path.abspath(d)).rstrip("/")) + "-" + os.path.basename(d)
-                tag = tag.replace("benign-", "").replace("out-", "")
+                parts = os.path.abspath(d).rstrip("/").split("/")
+                tag = (parts[-3] if parts[-2] == "out" else parts[-2]).replace("benign-", "") + "-" + parts[-1]
                 items.append((tag, d))
     bad = 0
     with ThreadPoolExecutor(max_workers=jobs) as ex:
